@@ -12,7 +12,7 @@ import json, os, subprocess, sys
 props = {json.loads(l)['id']: json.loads(l) for l in open('/verif/properties.jsonl')}
 tmpl = '''You are working on the open-source Go project gopher-fleece/gleece (a build-time generator that parses annotated Go controllers and emits OpenAPI specs and router code for gin/echo/mux/chi/fiber). You have your own scratch git worktree of the repository at {wt} - work ONLY there (never touch /repo or /verif). Put your deliverables in {out}.
 
-Environment (needed in every shell command, the sandbox is offline): `export GOFLAGS=-mod=mod GOPROXY=off` (do NOT set GOSUMDB). `go build ./...` works in the worktree; the existing test suite is run with `go test -vet=off -count=1 ./...` from the worktree root (takes about 1-2 minutes; the packages test/units/gast/versioning and test/visitors/route fail on the pristine tree already and do not count; the e2e suite rewrites some files under e2e/ - ignore those diffs and do not include them in your patch).
+Environment (needed in every shell command, the sandbox is offline): `export GOFLAGS=-mod=mod GOPROXY=off` (do NOT set GOSUMDB). `go build ./...` works in the worktree; the existing test suite is run with `go test -vet=off -count=1 ./...` from the worktree root (takes about 1-2 minutes; the packages test/units/gast/versioning and test/visitors/route fail on the pristine tree already and do not count; the e2e suite rewrites some files under e2e/ - ignore those diffs and do not include them in your patch). Never use `git stash`: the stash is shared with other contributors' worktrees of the same repository; save your change with `git diff > file` and undo it with `git apply -R file` or `git checkout -- .` instead.
 
 The property (a behaviour users rely on):
 
